@@ -2167,21 +2167,18 @@ theorem translate_foldr (tr : Bytes → Option Bytes) (cps : List Nat) (hv : ∀
         by_cases hnn : n' = n
         · rw [if_pos hnn, if_pos hnn, hunch]; simp [List.append_assoc]
         · rw [if_neg hnn, if_neg hnn]
-          rw [mkIter_prefix_bp (cps.take e) _ s hve (by omega), mkIter_prefix_bp (cps.take e) _ e hve (by omega)]
+          rw [mkIter_prefix_bp (cps.take e) _ s hve (by omega)]
           have hbs : byteOffset (cps.take e) s = (encode (cps.take s)).length := by
             rw [byteOffset_take cps e s (by omega)]; rfl
-          have hbe : byteOffset (cps.take e) e = (encode (cps.take e)).length := by
-            unfold byteOffset; rw [List.take_take, Nat.min_self]
-          have hmono : (encode (cps.take s)).length ≤ (encode (cps.take e)).length := by
-            have := byteOffset_mono cps s e (by omega)
-            unfold byteOffset at this; exact this
-          rw [hbs, hbe, show (encode (cps.take s)).length + ((encode (cps.take e)).length - (encode (cps.take s)).length)
-              = (encode (cps.take e)).length by omega, List.drop_left]
-          have htake : (encode (cps.take e) ++ weave cps e (rest.map (translatedItem tr cps))).take (encode (cps.take s)).length
-              = encode (cps.take s) := by
-            rw [← take_slice cps s e (by omega), List.append_assoc, List.take_left]
-          rw [htake, ← take_slice cps c s h1]
-          simp [List.append_assoc]
+          rw [hbs]
+          -- the text so far: prefix up to `s`, the original reference, the already woven tail
+          have hsplit : encode (cps.take e) ++ weave cps e (rest.map (translatedItem tr cps)) =
+              encode (cps.take s) ++ (encode (slice cps s e) ++ weave cps e (rest.map (translatedItem tr cps))) := by
+            rw [← take_slice cps s e (by omega), List.append_assoc]
+          rw [hsplit]
+          have hA := take_slice cps c s h1
+          trace_state
+          sorry
 
 /-! ### resolutions are well-formed UTF-8 when the context's terms are -/
 
